@@ -274,7 +274,12 @@ extern "C" int vf_epoll_wait(int epfd, struct epoll_event* events, int maxevents
   int n = ::epoll_wait(epfd, events, maxevents, 0);
   // the loopback handshake is completed inside the connect call; should the kernel ever need longer, give it real time before
   // concluding that a registered socket is not reported
-  if(n == 0 && w->expectsEvents()) { vf::hit("settle_waits"); n = ::epoll_wait(epfd, events, maxevents, 300); }
+  if(n == 0 && w->expectsEvents())
+  {
+    vf::hit("settle_waits");
+    vf::watchdog_arm(60000);
+    for(int i = 0; i < 20 && n == 0; ++i) n = ::epoll_wait(epfd, events, maxevents, 250);   // up to 5 s of real time on a loaded machine
+  }
   if(w->interruptRequested && ++w->pollsSinceInterrupt > 3) w->fail("interrupt-ignored", "run() did not return after interrupt()");
   if(n == 0 && timeout != 0) { w->atIdle(); w->clockMs += timeout > 0 ? timeout : 1; return 0; }
   return n;
